@@ -348,6 +348,230 @@ def items(trees):
     add("bh_gate", "t fa mrem", lambda: bh_item("gate"))
     add("bh_active", "mto m1 Nj", lambda: bh_item("active"))
 
+    # --- loop bodies of the dynamical ejection (C07) and of the kick bookkeeping (C15)
+    def eject_item(which):
+        fn = find_def(ev, "EvolvedMF._dyn_eject_BH")
+        env = {"Mr_BH[j]": "M", "Nr_BH[j]": "N", "M_eject": "mej", "Mtot_0": "Mtot", "self.BH_ret_dyn": "ret"}
+        tx = Tx(env)
+        loops = [n for n in own_nodes(fn) if isinstance(n, ast.While)]
+        if len(loops) != 1:
+            raise Unsupported("_dyn_eject_BH: expected one while loop")
+        loop = loops[0]
+        body = Block(loop.body, "while")
+        if which == "cond":
+            return tx.cond(loop.test) + " -- Bool"
+        whole = [n for n in loop.body if isinstance(n, ast.If) and "M_eject" in ast.unparse(n.test) and "Mr_BH[j]" in ast.unparse(n.test)]
+        if len(whole) != 1:
+            raise Unsupported("_dyn_eject_BH: whole-bin test not found")
+        whole = whole[0]
+        if which == "whole":
+            return tx.cond(whole.test) + " -- Bool"
+        if which == "budget":
+            a = find_setitem(Block(whole.body, "whole"), "M_eject")
+            if len(a) != 1 or not isinstance(a[0], ast.AugAssign) or not isinstance(a[0].op, ast.Sub):
+                raise Unsupported("_dyn_eject_BH: budget update")
+            return f"(mej - {tx(a[0].value)})"
+        if which in ("zeroM", "zeroN"):
+            a = find_setitem(Block(whole.body, "whole"), "Mr_BH[j]" if which == "zeroM" else "Nr_BH[j]")
+            if len(a) != 1:
+                raise Unsupported("_dyn_eject_BH: emptied bin")
+            return tx(a[0].value)
+        part = Block(whole.orelse, "partial")
+        env["mr_BH_j"] = tx(value_of(find_assign(part, "mr_BH_j")))
+        if which in ("partM", "partN"):
+            tgt = "Mr_BH[j]" if which == "partM" else "Nr_BH[j]"
+            a = find_setitem(part, tgt)
+            if len(a) != 1 or not isinstance(a[0], ast.AugAssign) or not isinstance(a[0].op, ast.Sub):
+                raise Unsupported("_dyn_eject_BH: partial removal")
+            return f"({env[tgt]} - {tx(a[0].value)})"
+        if which == "initial":
+            return tx(value_of(find_assign(fn, "M_eject", 0)))
+        raise Unsupported(which)
+    add("eject_cond", "mej", lambda: eject_item("cond"))
+    add("eject_whole", "M mej", lambda: eject_item("whole"))
+    add("eject_budget", "M mej", lambda: eject_item("budget"))
+    add("eject_zeroM", "x", lambda: eject_item("zeroM"))
+    add("eject_zeroN", "x", lambda: eject_item("zeroN"))
+    add("eject_partM", "M N mej", lambda: eject_item("partM"))
+    add("eject_partN", "M N mej", lambda: eject_item("partN"))
+    add("eject_initial", "Mtot ret", lambda: eject_item("initial"))
+
+    def target_item(which):
+        fn = find_def(ev, "EvolvedMFWithBH._dyn_eject_BH")
+        env = {"Mr_BH[j]": "M", "Nr_BH[j]": "N", "MBH": "MBH", "Mtot": "Mtot", "fBH_target": "f", "fBH_current": "cur"}
+        tx = Tx(env)
+        loops = [n for n in own_nodes(fn) if isinstance(n, ast.While)]
+        if len(loops) != 1:
+            raise Unsupported("EvolvedMFWithBH._dyn_eject_BH: expected one while loop")
+        loop = loops[0]
+        if which == "cond":
+            # `(target < (cur := MBH / Mtot)) and (j >= 0)`: the index part is the list recursion of the model
+            t = loop.test
+            if not (isinstance(t, ast.BoolOp) and isinstance(t.op, ast.And) and len(t.values) == 2 and ast.unparse(t.values[1]) == "j >= 0"):
+                raise Unsupported("EvolvedMFWithBH._dyn_eject_BH: loop condition shape")
+            return Tx({"fBH_target": "f", "MBH": "MBH", "Mtot": "Mtot"}).cond(t.values[0]) + " -- Bool"
+        whole = [n for n in loop.body if isinstance(n, ast.If)]
+        if len(whole) != 1:
+            raise Unsupported("EvolvedMFWithBH._dyn_eject_BH: whole-bin test not found")
+        whole = whole[0]
+        if which == "whole":
+            return tx.cond(whole.test) + " -- Bool"
+        wb = Block(whole.body, "whole")
+        if which in ("MBH", "Mtot"):
+            a = find_setitem(wb, which)
+            if len(a) != 1 or not isinstance(a[0], ast.AugAssign) or not isinstance(a[0].op, ast.Sub):
+                raise Unsupported("EvolvedMFWithBH._dyn_eject_BH: running totals")
+            return f"({which} - {tx(a[0].value)})"
+        part = Block(whole.orelse, "partial")
+        if which == "dfreq":
+            return tx(value_of(find_assign(part, "Δfreq")))
+        if which == "mreq_args":
+            call = value_of(find_assign(part, "Mreq"))
+            if not (isinstance(call, ast.Call) and ast.unparse(call.func) == "Mrem" and [ast.unparse(x) for x in call.args] == ["Δfreq", "MBH", "Mtot"]):
+                raise Unsupported("EvolvedMFWithBH._dyn_eject_BH: Mreq is no longer Mrem(Δfreq, MBH, Mtot)")
+            return "(1 : α)"
+        env["mr_BH_j"] = tx(value_of(find_assign(part, "mr_BH_j")))
+        env["Mreq"] = "req"
+        tgt = "Mr_BH[j]" if which == "partM" else "Nr_BH[j]"
+        a = find_setitem(part, tgt)
+        if len(a) != 1 or not isinstance(a[0], ast.AugAssign) or not isinstance(a[0].op, ast.Sub):
+            raise Unsupported("EvolvedMFWithBH._dyn_eject_BH: partial removal")
+        return f"({env[tgt]} - {tx(a[0].value)})"
+    add("target_cond", "f MBH Mtot", lambda: target_item("cond"))
+    add("target_whole", "M MBH Mtot f", lambda: target_item("whole"))
+    add("target_MBH", "M MBH", lambda: target_item("MBH"))
+    add("target_Mtot", "M Mtot", lambda: target_item("Mtot"))
+    add("target_dfreq", "cur f", lambda: target_item("dfreq"))
+    add("target_mreq_is_Mrem", "x", lambda: target_item("mreq_args"))
+    add("target_partM", "M N req", lambda: target_item("partM"))
+    add("target_partN", "M N req", lambda: target_item("partN"))
+
+    # --- remnant-bin carving masks and the bin lookup (C13), row extraction (C04, C05)
+    def carve_item(which):
+        fn = find_def(ms, "MassBins.__init__")
+        env = {"bins_MS.lower": "l", "bins_MS.upper": "u", "ifmr.WD_mf.upper": "x", "ifmr.BH_mf.lower": "x"}
+        tx = Tx(env)
+        if which in ("WD_mask", "BH_mask", "NS_mask"):
+            return tx.cond(value_of(find_assign(fn, which))) + " -- Bool"
+        if which == "WD_edge":
+            a = find_setitem(fn, "bins_WD.upper[-1]")
+            if len(a) != 1 or ast.unparse(a[0].value) != "ifmr.WD_mf.upper":
+                raise Unsupported("MassBins: the last WD bin is no longer cut at ifmr.WD_mf.upper")
+            return "(1 : α)"
+        if which == "BH_edge":
+            a = find_setitem(fn, "bins_BH.lower[0]")
+            if len(a) != 1 or ast.unparse(a[0].value) != "ifmr.BH_mf.lower":
+                raise Unsupported("MassBins: the first BH bin no longer starts at ifmr.BH_mf.lower")
+            return "(1 : α)"
+        raise Unsupported(which)
+    add("carve_WD_mask", "l u x", lambda: carve_item("WD_mask"))
+    add("carve_BH_mask", "l u x", lambda: carve_item("BH_mask"))
+    add("carve_NS_mask", "l u", lambda: carve_item("NS_mask"))
+    add("carve_WD_edge_is_WDmax", "x", lambda: carve_item("WD_edge"))
+    add("carve_BH_edge_is_BHmin", "x", lambda: carve_item("BH_edge"))
+
+    def lookup_item(which):
+        fn = find_def(ms, "MassBins.determine_index")
+        if which == "le":
+            a = value_of(find_assign(fn, "ind"))
+            src = ast.unparse(a)
+            if src != "np.flatnonzero(massbins.lower <= mass)[-1]":
+                raise Unsupported(f"determine_index: index expression is now `{src}`")
+            return Tx({"massbins.lower": "l", "mass": "m"}).cond(a.value.args[0]) + " -- Bool"
+        if which == "over":
+            i = [n for n in own_nodes(fn) if isinstance(n, ast.If) and "allow_overflow" in ast.unparse(n.test)]
+            if len(i) != 1:
+                raise Unsupported("determine_index: overflow test not found")
+            t = i[0].test
+            if not (isinstance(t, ast.BoolOp) and len(t.values) == 2 and ast.unparse(t.values[1]) == "allow_overflow is False"):
+                raise Unsupported("determine_index: overflow test shape")
+            return Tx({"massbins.upper[-1]": "u", "mass": "m"}).cond(t.values[0]) + " -- Bool"
+        if which == "last":
+            i = [n for n in own_nodes(fn) if isinstance(n, ast.If) and ast.unparse(n.test).startswith("ind >=")]
+            if len(i) != 1 or ast.unparse(i[0].test) != "ind >= massbins.upper.size - 1":
+                raise Unsupported("determine_index: last-bin test changed")
+            return "(1 : α)"
+        raise Unsupported(which)
+    add("lookup_le", "l m", lambda: lookup_item("le"))
+    add("lookup_over", "u m", lambda: lookup_item("over"))
+    add("lookup_last_bin_test", "x", lambda: lookup_item("last"))
+
+    def row_item(which, cls="EvolvedMF"):
+        fn = find_def(ev, f"{cls}._evolve")
+        env = {"Ns": "n", "Pk(alpha, 1, *bins_MS)": "p1", "Pk(alpha, 2, *bins_MS)": "p2", "As": "A", "Ms": "Ms",
+               "Ns[thin]": "n", "bins_MS.lower[thin]": "lo", "Mr.BH.sum()": "formed", "self.BH_ret_dyn": "ret", "M_eject": "mej",
+               "M_ret": "mret", "m_BH_min": "mmin", "self.Nmin": "nmin", "kicked": "kicked"}
+        tx = Tx(env)
+        if which == "As":
+            return tx(value_of(find_assign(fn, "As")))
+        if which == "Ms":
+            return tx(value_of(find_assign(fn, "Ms", 0)))
+        if which == "thin":
+            src = ast.unparse(value_of(find_assign(fn, "thin")))
+            if src != "np.isnan(Ms)":
+                raise Unsupported(f"_evolve: thin-bin rule is now keyed on `{src}`")
+            a = find_setitem(fn, "Ms[thin]")
+            if len(a) != 1:
+                raise Unsupported("_evolve: thin-bin assignment")
+            return tx(a[0].value)
+        if which == "ms":
+            a = find_setitem(fn, "self.ms[iout, :]")
+            if len(a) != 1:
+                raise Unsupported("_evolve: ms row")
+            return tx(a[0].value)
+        if which == "mej":
+            return tx(value_of(find_assign(fn, "M_eject", 0)))
+        if which == "mret":
+            return tx(value_of(find_assign(fn, "M_ret")))
+        if which == "shortcut":
+            i = [n for n in own_nodes(fn) if isinstance(n, ast.If) and "M_ret / m_BH_min" in ast.unparse(n.test)]
+            if len(i) != 1:
+                raise Unsupported("_evolve: kick-all shortcut test not found")
+            return tx.cond(i[0].test) + " -- Bool"
+        if which == "after_kicks":
+            a = [n for n in find_setitem(fn, "M_eject") if isinstance(n, ast.AugAssign)]
+            if len(a) != 1 or not isinstance(a[0].op, ast.Sub):
+                raise Unsupported("_evolve: kicks not subtracted from the budget")
+            return f"(mej - {tx(a[0].value)})"
+        if which == "over":
+            i = [n for n in own_nodes(fn) if isinstance(n, ast.If) and ast.unparse(n.test) == "M_eject < 0"]
+            if len(i) != 1:
+                raise Unsupported("_evolve: kicks-over-budget test not found")
+            return tx.cond(i[0].test) + " -- Bool"
+        raise Unsupported(which)
+    for cls, pre in (("EvolvedMF", "row"), ("EvolvedMFWithBH", "rowbh")):
+        add(f"{pre}_As", "n p1", lambda cls=cls: row_item("As", cls))
+        add(f"{pre}_Ms", "A p2", lambda cls=cls: row_item("Ms", cls))
+        add(f"{pre}_thin", "n lo", lambda cls=cls: row_item("thin", cls))
+        add(f"{pre}_ms", "Ms n", lambda cls=cls: row_item("ms", cls))
+    add("row_mej", "formed ret", lambda: row_item("mej"))
+    add("row_mret", "formed mej", lambda: row_item("mret"))
+    add("row_shortcut", "mret mmin nmin", lambda: row_item("shortcut"))
+    add("row_after_kicks", "mej kicked", lambda: row_item("after_kicks"))
+    add("row_over_budget", "mej", lambda: row_item("over"))
+
+    def kick_item(which):
+        fn = find_def(kk, "_unbound_natal_kicks")
+        env = {"Mr_BH[j]": "M", "Nr_BH[j]": "N", "retention": "ret", "natal_ejecta": "acc"}
+        tx = Tx(env)
+        if which == "arg":
+            call = value_of(find_assign(fn, "retention"))
+            if not (isinstance(call, ast.Call) and ast.unparse(call.func) == "f_ret" and len(call.args) == 1):
+                raise Unsupported("_unbound_natal_kicks: retention call shape")
+            return tx(call.args[0])
+        tgt = {"acc": "natal_ejecta", "M": "Mr_BH[j]", "N": "Nr_BH[j]"}[which]
+        a = [n for n in find_setitem(fn, tgt) if isinstance(n, ast.AugAssign)]
+        if len(a) != 1:
+            raise Unsupported(f"_unbound_natal_kicks: update of {tgt}")
+        op = {ast.Add: "+", ast.Mult: "*"}.get(type(a[0].op))
+        if op is None:
+            raise Unsupported("_unbound_natal_kicks: operator")
+        return f"({env[tgt]} {op} {tx(a[0].value)})"
+    add("kick_arg", "M N", lambda: kick_item("arg"))
+    add("kick_acc", "acc M ret", lambda: kick_item("acc"))
+    add("kick_M", "M ret", lambda: kick_item("M"))
+    add("kick_N", "N ret", lambda: kick_item("N"))
+
     # --- entries of the escape derivative (C03, C05, C18)
     def esc_blocks():
         fn = find_def(ev, "EvolvedMF._derivs_esc")
